@@ -279,7 +279,7 @@ def check_C17(work, prop, tier, seed, t0):
     q = tier == "quick"
     model_runs = [env_model(work)]
     ops = 100000 if q else 2000000
-    kinds = [("alpha/string", "random"), ("alpha/bytes", "long"), ("uint64", "random"), ("float64", "random"), ("collation/string/und", "text"),
+    kinds = [("alpha/string", "random"), ("alpha/bytes", "long"), ("uint32", "random"), ("uint64", "random"), ("float64", "random"), ("collation/string/und", "text"),
              ("collation/bytes/sv", "text"), ("compound/u16+str", "tuple")]
     if not q:
         kinds += [("int32", "random"), ("collation/runes/und", "text"), ("collation/string/en-num", "text"), ("uint8", "fan1"), ("alpha/string", "fan2")]
